@@ -193,7 +193,7 @@ theorem en_pWrSearch {r : Fin n} {s : St n} {b : Bool} (h : (step r s (.pWr .sea
     s.search.cur = false ∧ s.search.nxt = none ∧ s.optsFin = true := by
   simp only [step, stepP, stepPWr] at h
   split at h
-  · rename_i hg; exact ⟨hg.2.2.2.1, hg.2.1, hg.2.2.2.2.2.2⟩
+  · rename_i hg; exact ⟨hg.2.2.2.1, hg.2.1, hg.2.2.2.2.2.2.1⟩
   · cases h
 
 theorem en_pWaitStop {r : Fin n} {s : St n} (h : (step r s .pWaitStop).isSome = true) :
@@ -310,7 +310,7 @@ theorem drf_core {r : Fin n} {s : St n} (h : Reach r s) (e1 e2 : Ev n)
     · rw [hw] at hwf; cases hwf
     · rcases acc_children r s e2 v b hb (by rw [← hloc, hl]) with ⟨_, hthr2, hrd⟩ | ⟨hlb, _⟩
       · -- e1 adds / removes a child of v while the thread of v reads the list
-        have hquiet : mainLoopPc (s.pc r) = true ∧ (v = r ∨ s.pc v = .wait ∨ s.pc v = .done) := by
+        have hquiet : mainLoopPc (s.pc r) = true ∧ (v = r ∨ s.pc v = .wait ∨ s.pc v = .done ∨ s.pc v = .gone) := by
           cases e1 <;> simp only [childWriter] at hwr
           case spawn w p =>
             subst hwr
@@ -321,9 +321,10 @@ theorem drf_core {r : Fin n} {s : St n} (h : Reach r s) (e1 e2 : Ev n)
             simp only [exitQuiet, hwr] at hq1
             exact hq1
         have hnopoll : pollPc (s.pc v) = false := by
-          rcases hquiet.2 with e | e | e
+          rcases hquiet.2 with e | e | e | e
           · subst e
             cases hp : s.pc v <;> simp [hp, mainLoopPc] at hquiet <;> rfl
+          · rw [e]; rfl
           · rw [e]; rfl
           · rw [e]; rfl
         cases e2 <;> simp only [childReader] at hrd
